@@ -328,6 +328,10 @@ fn cmd_gen(args: &[String]) {
             if do_project {
                 match project::project(text, &src) {
                     Ok(mut p) => {
+                        if let Some(d) = &outdir {
+                            // raw (unsanitised, unfiltered) projection for the probe generators
+                            std::fs::write(format!("{d}/{}.out.json", case.id), p.to_string()).unwrap();
+                        }
                         if let (Some(k), Some(m)) = (&keep, p.as_object_mut()) {
                             m.retain(|key, _| k.iter().any(|x| x == key));
                         }
